@@ -1188,8 +1188,17 @@ def seq_step(ctx, rng, st):
                     return
                 oalph = m.alph + extra
             else:
-                oalph = m.alph + [("extra", len(m.alph) + i) for i in range(ri(rng, 1, 4))]
-            om = SeqModel(m.kind, oalph, [pick(rng, oalph) for _ in range(L2)], mk(oalph))
+                nx = ri(rng, 1, 5)
+                wide = rng.random() < 0.5
+                if wide:
+                    # the extended alphabet needs a wider code type than the original one (more than 256 symbols)
+                    nx = max(nx, 257 - len(m.alph) + ri(rng, 0, 41))
+                oalph = m.alph + [("extra", len(m.alph) + i) for i in range(nx)]
+            osyms = [pick(rng, oalph) for _ in range(L2)]
+            if m.kind != "general_letter" and len(oalph) > 256 and osyms:
+                osyms[ri(rng, 0, len(osyms))] = oalph[-1]
+                osyms[ri(rng, 0, len(osyms))] = oalph[256]
+            om = SeqModel(m.kind, oalph, osyms, mk(oalph))
         other = make_seq(rng, ctx, om, log=False)
         left = rng.random() < 0.5 if how != "extended_left" else False
         a, am, b, bm = (obj, m, other, om) if left else (other, om, obj, m)
@@ -1468,7 +1477,24 @@ def make_dna(rng, dna):
     return NucleotideSequence(arg) if rng.random() < 0.7 else NucleotideSequence(arg, ambiguous=False)
 
 
+def sweep_shipped_tables(ctx):
+    """Every shipped table, by id and by each of its names, against the NCBI text (64 codons and the start codons)."""
+    ctx.op("shipped_tables_by_id_and_every_name")
+    for tid in R.TABLE_IDS:
+        aa64, starts = R.ncbi_table(tid)
+        if tid in R.SHIPPED_DATA_DEVIATION:
+            continue
+        expect = {c: aa64[i] for i, c in enumerate(R.CODONS)}
+        for key in [tid] + list(R.TABLE_NAMES[tid]):
+            t = CodonTable.load(key)
+            ctx.check(t.codon_dict() == expect, "table_lookup", "CodonTable.load(%r).codon_dict() is not NCBI table %d" % (key, tid))
+            ctx.check(set(t.start_codons()) == set(starts), "table_lookup",
+                      "CodonTable.load(%r).start_codons() = %r, NCBI table %d has %s" % (key, t.start_codons(), tid, sorted(starts)))
+
+
 def case_translate(rng, ctx):
+    if ctx.index % 150 == 0:
+        sweep_shipped_tables(ctx)
     table, aa64, starts, desc = gen_table(rng, ctx)
     if rng.random() < 0.3:
         check_table_api(ctx, table, aa64, starts, desc)
